@@ -287,6 +287,9 @@ func isolationCase(c *Ctx) {
 				s.keys[k] = true
 			}
 		}
+		if !c.checkNoTTL([]string{"C19"}, fmt.Sprintf("after %s on structure %d (%s)", what, i, s.kind.name)) {
+			return
+		}
 		obs := raObserve(s.kind, s.h)
 		if obs != s.solo[s.next] {
 			c.fail([]string{"C19"}, "structure-disturbed",
